@@ -2,12 +2,12 @@ SPECIFICATION Spec
 CONSTANTS
   VCodec = "avc"
   ACodec = "opus"
-  MaxPub = 10
-  MaxVer = 3
+  MaxPub = 5
+  MaxVer = 2
   VKinds <- AvcAll
-  DtPool <- Dt5
+  DtPool <- Dt2
   AscPool = {1, 2, 3}
   ProbeMax = 16
-  GopNum = 0
+  GopNum = 1
 INVARIANTS AllOk EndComplete
-ACTION_CONSTRAINT EmitA
+VIEW View
